@@ -14,6 +14,7 @@
 package main
 
 import (
+	"context"
 	"time"
 	"fmt"
 	"sync/atomic"
@@ -173,6 +174,48 @@ func burstCase(engine, bal string, rounds, clients, watchers int) map[string]any
 	stop.Store(true)
 	wwg.Wait()
 	return map[string]any{"rounds": rounds, "clients": clients, "watchers": watchers, "stale_rounds": stale, "first": first}
+}
+
+// methodsCase: requests with every method a client may use on a proxied path (HEAD and OPTIONS probes, GET, DELETE, PUT,
+// PATCH, POST), one after the other, each answered 200 by the backend and received in full by the client.  Each is one
+// request and one success, in every scope.
+func methodsCase(engine string) map[string]any {
+	b := stack.NewBackend("M")
+	defer b.Close()
+	b.SetBehaviour(stack.Behaviour{Kind: "ok", Status: 200, Headers: [][2]string{{"Content-Type", "application/json"}}, Body: []byte(`{"ok":true,"pad":"0123456789"}`)})
+	s, err := stack.Start(stack.Opts{Vary: stack.VaryFor("c19.methods", engine), Engine: engine, Balancer: "priority", Profile: "auto", EPs: []stack.EP{{Name: "M", Type: "openai", Priority: 100, Backend: b}}})
+	if err != nil {
+		return map[string]any{"start_err": err.Error()}
+	}
+	defer s.Stop()
+	g0 := s.Stats.GetProxyStats()
+	e0, _ := s.Proxy.GetStats(context.Background())
+	methods := []string{"HEAD", "GET", "OPTIONS", "POST", "DELETE", "PUT", "PATCH", "HEAD", "HEAD", "GET"}
+	answered := 0
+	var seen []string
+	for _, m := range methods {
+		var body []byte
+		if m == "POST" || m == "PUT" || m == "PATCH" {
+			body = []byte(`{"messages":[]}`)
+		}
+		r := stack.Do(s.Addr, stack.Request(m, "/olla/proxy/v1/chat/completions", s.Addr, [][2]string{{"Content-Type", "application/json"}}, body, false), 5*time.Second)
+		seen = append(seen, fmt.Sprintf("%s:%d:%s", m, r.Status, r.Err))
+		if r.Status == 200 && (r.Err == "" || m == "HEAD" && len(r.Body) == 0) {
+			answered++
+		}
+		time.Sleep(5 * time.Millisecond)
+	}
+	time.Sleep(30 * time.Millisecond)
+	g := s.Stats.GetProxyStats()
+	e, _ := s.Proxy.GetStats(context.Background())
+	var pe [3]int64
+	for _, x := range s.Stats.GetEndpointStats() {
+		pe = [3]int64{pe[0] + x.TotalRequests, pe[1] + x.SuccessfulRequests, pe[2] + x.FailedRequests}
+	}
+	return map[string]any{"sent": len(methods), "answered_200_in_full": answered, "backend_saw": len(b.Taken()), "seen": seen,
+		"global": [3]int64{g.TotalRequests - g0.TotalRequests, g.SuccessfulRequests - g0.SuccessfulRequests, g.FailedRequests - g0.FailedRequests},
+		"engine": [3]int64{e.TotalRequests - e0.TotalRequests, e.SuccessfulRequests - e0.SuccessfulRequests, e.FailedRequests - e0.FailedRequests},
+		"per_endpoint": pe}
 }
 
 func main() {
@@ -341,6 +384,10 @@ func main() {
 	for i, sc := range scs {
 		c.Count(fam[i] + "." + sc.Engine + "." + sc.Balancer + ".c" + strconv.Itoa(sc.Clients))
 		c.Emit(map[string]any{"kind": "counters", "family": fam[i], "scenario": sc, "impl": out[i]})
+	}
+	for _, engine := range []string{"sherpa", "olla"} {
+		c.Emit(map[string]any{"kind": "methods", "engine": engine, "impl": methodsCase(engine)})
+		c.Count("methods." + engine)
 	}
 	for _, engine := range []string{"sherpa", "olla"} {
 		for _, bal := range []string{"least-connections", "priority"} {
